@@ -57,10 +57,11 @@ Record fstate := FS {
   f_mark : option nat;       (* history: length of f_out when Destroy ran *)
   f_saved : list fchunk;     (* history: chunks handed to UnloadOrDropChunk during the cleanup, newest first *)
   f_bad : list fchunk;       (* history: chunks whose load failed (dropped / corrupted), newest first *)
-  f_taken : nat              (* history: chunks the consumer received *)
+  f_taken : nat;             (* history: chunks the consumer received *)
+  f_loops : nat              (* history: chunks the main loop received from inputChannel *)
 }.
 
-Definition f_init : fstate := FS PRecv [] false [] false true [] None [] [] 0.
+Definition f_init : fstate := FS PRecv [] false [] false true [] None [] [] 0 0.
 
 Inductive f_event :=
 (* the environment *)
@@ -90,19 +91,19 @@ Definition same_fev (a b : f_event) : bool :=
   end.
 
 Definition set_pc (s : fstate) (pc : fpc) : fstate :=
-  FS pc (f_queue s) (f_closed s) (f_window s) (f_oclosed s) (f_cons s) (f_out s) (f_mark s) (f_saved s) (f_bad s) (f_taken s).
+  FS pc (f_queue s) (f_closed s) (f_window s) (f_oclosed s) (f_cons s) (f_out s) (f_mark s) (f_saved s) (f_bad s) (f_taken s) (f_loops s).
 
 Definition has_room (cfg : fcfg) (s : fstate) : bool := Nat.ltb (length (f_window s)) (fg_wcap cfg).
 
 (* the send of chunk c succeeds: it is in the window, the main loop goes back to the receive *)
 Definition do_send (s : fstate) (c : fchunk) : fstate :=
   FS PRecv (f_queue s) (f_closed s) (f_window s ++ [c]) (f_oclosed s) (f_cons s) (c :: f_out s) (f_mark s)
-     (f_saved s) (f_bad s) (f_taken s).
+     (f_saved s) (f_bad s) (f_taken s) (f_loops s).
 
 (* leaving the main loop: close(outputChannel); outputClosed.Signal() *)
 Definition do_leave (s : fstate) (last : option fchunk) : fstate :=
   FS (PSaveQueue last) (f_queue s) (f_closed s) (f_window s) true (f_cons s) (f_out s) (f_mark s)
-     (f_saved s) (f_bad s) (f_taken s).
+     (f_saved s) (f_bad s) (f_taken s) (f_loops s).
 
 Definition f_step (cfg : fcfg) (s : fstate) (e : f_event) : option fstate :=
   match e with
@@ -110,34 +111,34 @@ Definition f_step (cfg : fcfg) (s : fstate) (e : f_event) : option fstate :=
     if f_closed s then None   (* the pipeline does not call Accept after Destroy *)
     else if Nat.ltb (length (f_queue s)) (fg_qcap cfg) then
       Some (FS (f_pc s) (f_queue s ++ [c]) false (f_window s) (f_oclosed s) (f_cons s) (f_out s) (f_mark s)
-               (f_saved s) (f_bad s) (f_taken s))
+               (f_saved s) (f_bad s) (f_taken s) (f_loops s))
     else Some s               (* queue overflow: the chunk is dropped *)
   | EDestroy =>
     if f_closed s then None
     else Some (FS (f_pc s) (f_queue s) true (f_window s) (f_oclosed s) (f_cons s) (f_out s)
-                  (Some (length (f_out s))) (f_saved s) (f_bad s) (f_taken s))
+                  (Some (length (f_out s))) (f_saved s) (f_bad s) (f_taken s) (f_loops s))
   | ETake =>
     match f_cons s, f_window s with
     | true, _ :: w =>
       Some (FS (f_pc s) (f_queue s) (f_closed s) w (f_oclosed s) true (f_out s) (f_mark s) (f_saved s) (f_bad s)
-               (S (f_taken s)))
+               (S (f_taken s)) (f_loops s))
     | _, _ => None
     end
   | EConsFinish =>
     if f_cons s && f_oclosed s then
       Some (FS (f_pc s) (f_queue s) (f_closed s) (f_window s) true false (f_out s) (f_mark s) (f_saved s) (f_bad s)
-               (f_taken s))
+               (f_taken s) (f_loops s))
     else None
   | FRecv =>
     match f_pc s, f_queue s with
     | PRecv, c :: q =>
       if fc_ok c then
         Some (FS (if fg_fast cfg then PFast c else PSelect c) q (f_closed s) (f_window s) (f_oclosed s) (f_cons s)
-                 (f_out s) (f_mark s) (f_saved s) (f_bad s) (f_taken s))
+                 (f_out s) (f_mark s) (f_saved s) (f_bad s) (f_taken s) (S (f_loops s)))
       else
         (* loadToOutput returns true without reaching the select: the loop goes on *)
         Some (FS PRecv q (f_closed s) (f_window s) (f_oclosed s) (f_cons s) (f_out s) (f_mark s) (f_saved s)
-                 (c :: f_bad s) (f_taken s))
+                 (c :: f_bad s) (f_taken s) (S (f_loops s)))
     | _, _ => None
     end
   | FEnd =>
@@ -166,17 +167,17 @@ Definition f_step (cfg : fcfg) (s : fstate) (e : f_event) : option fstate :=
       match f_queue s with
       | c :: q =>
         Some (FS (PSaveQueue last) q (f_closed s) (f_window s) (f_oclosed s) (f_cons s) (f_out s) (f_mark s)
-                 (c :: f_saved s) (f_bad s) (f_taken s))
+                 (c :: f_saved s) (f_bad s) (f_taken s) (f_loops s))
       | [] => Some (set_pc s (match last with Some c => PSaveLast c | None => PWaitConsumers end))
       end
     | PSaveLast c =>
       Some (FS PWaitConsumers (f_queue s) (f_closed s) (f_window s) (f_oclosed s) (f_cons s) (f_out s) (f_mark s)
-               (c :: f_saved s) (f_bad s) (f_taken s))
+               (c :: f_saved s) (f_bad s) (f_taken s) (f_loops s))
     | PSaveOutput =>
       match f_window s with
       | c :: w =>
         Some (FS PSaveOutput (f_queue s) (f_closed s) w (f_oclosed s) (f_cons s) (f_out s) (f_mark s)
-                 (c :: f_saved s) (f_bad s) (f_taken s))
+                 (c :: f_saved s) (f_bad s) (f_taken s) (f_loops s))
       | [] => Some (set_pc s PStopped)
       end
     | _ => None
@@ -263,7 +264,7 @@ Definition accepts (l : list fchunk) : list f_event := map EAccept l.
 
 (* the state after  accepts l  from the initial state (Proofs: run_accepts_lemma), written down directly so that the
    replay is linear in the length of the backlog *)
-Definition with_queue (l : list fchunk) : fstate := FS PRecv l false [] false true [] None [] [] 0.
+Definition with_queue (l : list fchunk) : fstate := FS PRecv l false [] false true [] None [] [] 0 0.
 
 (* one chunk through the feeder to a consumer that takes it at once *)
 Definition pass_one : list f_event := [FRecv; FSend; ETake].
@@ -294,8 +295,8 @@ Fixpoint finish (cfg : fcfg) (s : fstate) (fuel : nat) : fstate :=
    received [pre] chunks that were sent before the stop request and [post] chunks sent after it (each of the latter
    a resolution of the select in favour of the send), then the feeder takes the stop branch.
    Result: (number of such resolutions, chunks forwarded after the stop, chunks received, chunks left to the cleanup,
-   feeder stopped), or None when the model has no such run. *)
-Definition replay_backlog (cfg : fcfg) (n pre post : nat) : option (nat * nat * nat * nat * bool) :=
+   chunks the main loop took from the queue, feeder stopped), or None when the model has no such run. *)
+Definition replay_backlog (cfg : fcfg) (n pre post : nat) : option (nat * nat * nat * nat * nat * bool) :=
   let ev1 := rep pre pass_one ++ [EDestroy] in
   let ev2 := rep post pass_one in
   if Nat.ltb (fg_qcap cfg) n then None else
@@ -306,7 +307,7 @@ Definition replay_backlog (cfg : fcfg) (n pre post : nat) : option (nat * nat * 
     | None => None
     | Some s2 =>
       let s3 := finish cfg s2 (length (f_queue s2) + length (f_queue s2) + fg_wcap cfg + 12) in
-      Some (f_choices cfg s1 ev2, fwd_after s3, f_taken s3, length (f_saved s3),
+      Some (f_choices cfg s1 ev2, fwd_after s3, f_taken s3, length (f_saved s3), f_loops s3,
             match f_pc s3 with PStopped => true | _ => false end)
     end
   end.
